@@ -272,7 +272,8 @@ def run_both(prog, wire, init_kind, alloc, case, part, fam) -> None:
                 fpq = "two-qubit-gate-on-register-written-by-load/wrong-decomposition"
             add_violation(part, fpq, "quantum state after the transpiled program differs from the original "
                           "(wrong decomposition for the qubit the register holds, or a branch landed elsewhere)", c,
-                          {"wire": wire, "overlap": float(abs(np.vdot(va, vb)))})
+                          {"wire": wire, "overlap": float(abs(np.vdot(va, vb))) if np.shape(va) == np.shape(vb) else
+                           f"state vectors of {np.size(va)} and {np.size(vb)} amplitudes (different qubits remain)"})
             return
         count(part, "agree")
 
